@@ -122,3 +122,34 @@ Section Chunks.
     intros oy ox ny nx L P Hny Hnx HL HP [TL TP]. apply block_nn_spec; assumption.
   Qed.
 End Chunks.
+
+(* ---------------- np.gradient of an affine coordinate array is the constant slope, ends included ---------------- *)
+Lemma np_gradient_affine q s n i : (2 <= n)%Z -> (0 <= i < n)%Z ->
+  np_gradient1 RO n (fun k => q + s * IZR k) i = s.
+Proof.
+  intros Hn Hi. unfold np_gradient1. cbn [sub div ofZ RO].
+  destruct (Z.eqb_spec i 0) as [->|N0]; [simpl; lra|].
+  destruct (Z.eqb_spec i (n - 1)) as [->|N1].
+  - replace (n - 1 - 1)%Z with (n - 2)%Z by lia. rewrite !minus_IZR. simpl (IZR 1). simpl (IZR 2). lra.
+  - rewrite plus_IZR, minus_IZR. simpl (IZR 1). field.
+Qed.
+
+Lemma np_gradient_affine_ext (f : Z -> R) q s n i : (forall k, f k = q + s * IZR k) -> (2 <= n)%Z -> (0 <= i < n)%Z ->
+  np_gradient1 RO n f i = s.
+Proof.
+  intros Hf Hn Hi. rewrite <- (np_gradient_affine q s n i Hn Hi). unfold np_gradient1. rewrite !Hf. reflexivity.
+Qed.
+
+(* so the four gradient arrays _get_coordinates_in_same_projection computes for an (uncropped or cropped) area are,
+   on the grid, the constants the theorems use *)
+Lemma fields_of_affine_coords x0 y0 a b c e n_l n_p l p : (2 <= n_l)%Z -> (2 <= n_p)%Z -> (0 <= l < n_l)%Z -> (0 <= p < n_p)%Z ->
+  let F := fields_of_coords RO n_l n_p (f_sx (affF x0 y0 a b c e)) (f_sy (affF x0 y0 a b c e)) in
+  f_xl F l p = a /\ f_xp F l p = b /\ f_yl F l p = c /\ f_yp F l p = e.
+Proof.
+  intros Hl Hp Il Ip. cbn [fields_of_coords f_xl f_xp f_yl f_yp f_sx f_sy affF].
+  repeat split.
+  - apply (np_gradient_affine_ext _ (x0 + b * IZR p) a); try assumption. intros k. ring.
+  - apply (np_gradient_affine_ext _ (x0 + a * IZR l) b); try assumption. intros k. ring.
+  - apply (np_gradient_affine_ext _ (y0 + e * IZR p) c); try assumption. intros k. ring.
+  - apply (np_gradient_affine_ext _ (y0 + c * IZR l) e); try assumption. intros k. ring.
+Qed.
